@@ -209,7 +209,7 @@ Lemma J_step hooks reg en hand o :
   J hooks (fold_left reg_step (induced hooks o) reg) (en_step en o) (hand_step hand o).
 Proof.
   intros Hn (HL & HR & HH) Hm.
-  destruct o as [c id|c id|h|h|c|n| |ns| |]; cbn [induced en_step hand_step fold_left reg_step];
+  destruct o as [c id|c id|h|h|c|n| |ns| | |]; cbn [induced en_step hand_step fold_left reg_step];
     try (split; [exact HL | split; [exact HR | exact HH]]).
   - (* OAdd by hand *)
     cbn [meddles] in Hm.
